@@ -980,8 +980,8 @@ func compareLogicXEQ(left r.Element, right r.Element) (bool, error) {
 			if len(vla) != len(vra) {
 				return false, nil
 			}
-			// cmp each item
-			for idx := range vla {
+			// cmp each item (by the order of keys to yield a stable result)
+			for _, idx := range vl.GetKeyOrder() {
 				// ensure the key exists on vr
 				vrr, ok := vra[idx]
 				if !ok {
@@ -991,7 +991,10 @@ func compareLogicXEQ(left r.Element, right r.Element) (bool, error) {
 				if err != nil {
 					return false, err
 				}
-				return cmpVal, nil
+				// break the loop only when cmpVal = false
+				if !cmpVal {
+					return false, nil
+				}
 			}
 			return true, nil
 		}
